@@ -1,4 +1,5 @@
 pub mod c01;
+pub mod c02;
 pub mod c04;
 pub mod c05;
 pub mod c06;
@@ -15,7 +16,7 @@ pub mod c20;
 use crate::core::PropSpec;
 
 pub fn all_specs() -> Vec<PropSpec> {
-    vec![c01::spec(), c04::spec(), c05::spec(), c06::spec(), c07::spec(), c08::spec(), c11::spec(), c12::spec(), c13::spec(), c15::spec(), c16::spec(), c17::spec(), c20::spec()]
+    vec![c01::spec(), c02::spec(), c04::spec(), c05::spec(), c06::spec(), c07::spec(), c08::spec(), c11::spec(), c12::spec(), c13::spec(), c15::spec(), c16::spec(), c17::spec(), c20::spec()]
 }
 
 pub fn spec_for(id: &str) -> Option<PropSpec> {
